@@ -8,11 +8,13 @@ package main
 
 import (
 	"bytes"
+	"encoding/json"
 	"errors"
 	"fmt"
 	"io"
 	"math/rand"
 	"os"
+	"os/exec"
 	"path/filepath"
 	"sort"
 	"strings"
@@ -881,27 +883,161 @@ func (x *xfRes) Fail(f lib.Failure) {
 }
 func (x *xfRes) Note(format string, a ...any) { x.mu.Lock(); x.r.Note(format, a...); x.mu.Unlock() }
 
-// xfParallel runs fn(0..n-1) on `workers` goroutines.
-func xfParallel(n, workers int, fn func(i int)) {
+// xfParallel runs fn(worker, 0..n-1) on `workers` goroutines (worker = 1..workers; 0 is the main goroutine).
+func xfParallel(n, workers int, fn func(w, i int)) {
 	if workers < 1 {
 		workers = 1
 	}
 	var wg sync.WaitGroup
 	ch := make(chan int)
-	for w := 0; w < workers; w++ {
+	for w := 1; w <= workers; w++ {
 		wg.Add(1)
-		go func() {
+		go func(w int) {
 			defer wg.Done()
 			for i := range ch {
-				fn(i)
+				fn(w, i)
 			}
-		}()
+		}(w)
 	}
 	for i := 0; i < n; i++ {
 		ch <- i
 	}
 	close(ch)
 	wg.Wait()
+}
+
+// ---------- running a check in a child process ----------
+
+// A panic in one of the package's own goroutines (readAt / WriteTo workers, the client's receiver)
+// cannot be recovered by the caller and would take the harness down with it. Each of the three
+// checks therefore runs in a child process of the same binary; the parent reports a dead child as
+// an observation, together with the cases that were in flight (each worker keeps the JSON of its
+// current case in a fixed slot of a small file).
+
+const xfSlotSize = 8192
+const xfSlots = 72
+
+var xfInflightFile *os.File
+
+// xfInflight records v as the case worker `slot` is running now.
+func xfInflight(slot int, v any) {
+	if xfInflightFile == nil || slot < 0 || slot >= xfSlots {
+		return
+	}
+	b, err := json.Marshal(v)
+	if err != nil || len(b) > xfSlotSize-1 {
+		b = []byte(fmt.Sprintf("%q", fmt.Sprint(v)))
+		if len(b) > xfSlotSize-1 {
+			b = b[:xfSlotSize-1]
+		}
+	}
+	buf := make([]byte, xfSlotSize)
+	copy(buf, b)
+	xfInflightFile.WriteAt(buf, int64(slot)*xfSlotSize)
+}
+
+func xfInChild(c *lib.Ctx, id string, body func(c *lib.Ctx)) {
+	if p := os.Getenv("VH_XFER_INFLIGHT"); p != "" {
+		// we are the child
+		if f, err := os.OpenFile(p, os.O_RDWR, 0); err == nil {
+			xfInflightFile = f
+			defer f.Close()
+		}
+		body(c)
+		return
+	}
+	if os.Getenv("VH_XFER_INPROCESS") != "" {
+		body(c)
+		return
+	}
+	dir, err := os.MkdirTemp("", "vh-"+id+"-parent-")
+	if err != nil {
+		c.R.Fail(lib.Failure{Kind: "tie", Key: "tmpdir", What: err.Error()})
+		return
+	}
+	defer os.RemoveAll(dir)
+	slots := filepath.Join(dir, "inflight")
+	if err := os.WriteFile(slots, make([]byte, xfSlots*xfSlotSize), 0o600); err != nil {
+		c.R.Fail(lib.Failure{Kind: "tie", Key: "tmpdir", What: err.Error()})
+		return
+	}
+	outFile := filepath.Join(dir, "result.json")
+	args := []string{id, "--tier", c.Tier, "--seed", fmt.Sprint(c.Seed), "--out", outFile}
+	if c.ModelPath != "" {
+		args = append(args, "--model", c.ModelPath)
+	}
+	if c.Replay != "" {
+		args = append(args, "--replay", c.Replay)
+	}
+	cmd := exec.Command(os.Args[0], args...)
+	cmd.Env = append(os.Environ(), "VH_XFER_INFLIGHT="+slots, "GOTRACEBACK=single")
+	var stderr bytes.Buffer
+	cmd.Stderr = &stderr
+	limit := 10 * time.Minute
+	if c.Tier == "thorough" {
+		limit = 60 * time.Minute
+	}
+	if err := cmd.Start(); err != nil {
+		c.R.Fail(lib.Failure{Kind: "tie", Key: "child-start", What: err.Error()})
+		return
+	}
+	done := make(chan error, 1)
+	go func() { done <- cmd.Wait() }()
+	var runErr error
+	select {
+	case runErr = <-done:
+	case <-time.After(limit):
+		cmd.Process.Kill()
+		runErr = fmt.Errorf("killed after %v", limit)
+		<-done
+	}
+	if b, err := os.ReadFile(outFile); err == nil && runErr == nil {
+		seed, tier := c.R.Seed, c.R.Tier
+		if err := json.Unmarshal(b, c.R); err != nil {
+			c.R.Fail(lib.Failure{Kind: "tie", Key: "child-result", What: err.Error()})
+		}
+		c.R.Seed, c.R.Tier = seed, tier
+		if stderr.Len() > 0 {
+			os.Stderr.Write(stderr.Bytes())
+		}
+		return
+	}
+	// the child died: report it with what was in flight
+	var inflight []json.RawMessage
+	if b, err := os.ReadFile(slots); err == nil {
+		for i := 0; i+xfSlotSize <= len(b); i += xfSlotSize {
+			rec := bytes.TrimRight(b[i:i+xfSlotSize], "\x00")
+			if len(rec) > 0 && json.Valid(rec) {
+				inflight = append(inflight, json.RawMessage(append([]byte(nil), rec...)))
+			}
+		}
+	}
+	tail := stderr.String()
+	if len(tail) > 6000 {
+		tail = tail[:3000] + "\n…\n" + tail[len(tail)-3000:]
+	}
+	key := "crash/process-died"
+	if strings.Contains(tail, "panic:") || strings.Contains(tail, "fatal error:") {
+		key = "crash/panic-in-package-goroutine"
+	}
+	c.R.Rule = "the check ran in a child process which died; see the failure"
+	c.R.Fail(lib.Failure{Kind: "oracle", Key: key, What: fmt.Sprintf("the process running the check died (%v); a panic or fatal error outside the calling goroutine cannot be recovered. The cases in flight are given as input (one of them triggered it); stderr is in `actual`", runErr),
+		Input: map[string]any{"in_flight": inflight}, Expected: "the check completes", Actual: tail})
+}
+
+// xfReplayInputs returns the replay file's input, or the list of in-flight cases of a crash report.
+func xfReplayInputs(path string) ([]json.RawMessage, error) {
+	var raw json.RawMessage
+	if err := lib.ReadReplay(path, &raw); err != nil {
+		return nil, err
+	}
+	var crash struct {
+		InFlight []json.RawMessage `json:"in_flight"`
+	}
+	if json.Unmarshal(raw, &crash) == nil && len(crash.InFlight) > 0 {
+		return crash.InFlight, nil
+	}
+	return []json.RawMessage{raw}, nil
 }
 
 // ---------- the Lean driver's xfer.* ops ----------
